@@ -61,6 +61,9 @@ def handler_branches(ctx: Ctx, rule: str, tf: Func, h: ast.ExceptHandler, exc_pa
                 return True
             if h.name is not None and any(isinstance(y, ast.Name) and y.id == h.name for y in ast.walk(e)):
                 return True
+            if isinstance(e, (ast.Tuple, ast.List)):
+                # the exception travels with something that says whose it is (the folder's position)
+                return any(is_exc(el, depth) for el in e.elts)
             if isinstance(e, ast.Name) and depth > 0:
                 defs = [n for n in ast.walk(h) if isinstance(n, ast.Assign) and any(isinstance(t_, ast.Name) and t_.id == e.id for t_ in n.targets)]
                 return bool(defs) and all(is_exc(n.value, depth - 1) for n in defs) and any(tcfg.dominates(q.node_for(tf, n), q.node_for(tf, x)) for n in defs)
@@ -390,6 +393,19 @@ def run(ctx: Ctx) -> None:
                         rr = True
         ctx.check(rr, "R13.3", ex, c, "non-empty error channel re-raises after the joins", "after joining, a non-empty error channel does not lead to a re-raise in the caller",
                   construct="re-raise from error channel")
+        # R13.10: WHICH error is raised does not depend on the schedule either: the raise takes its exception from the minimum, by the folder's position, over
+        # everything the channel holds (the sequential path stops at the first bad folder in archive order) - not from the first entry a `get()` happens to return
+        for r in [r for r in raises if any(isinstance(cd, ast.Call) and attr_tail(cd) == "empty" and not pol for cd, pol in q.facts_at(ex, r))]:
+            ordered = False
+            for nm in {x.id for x in ast.walk(r.exc) if isinstance(x, ast.Name)} if r.exc is not None else set():
+                for d_ in [n for n in walk(ex.node) if isinstance(n, ast.Assign) and any(isinstance(y, ast.Name) and y.id == nm for t_ in n.targets for y in ast.walk(t_))]:
+                    v = q.expand_locals(ex, d_.value)
+                    if any(isinstance(x, ast.Call) and dotted(x.func) in ("min", "sorted") for x in ast.walk(v)) and any(
+                            isinstance(x, ast.Call) and attr_tail(x) in ("qsize", "empty") for x in ast.walk(v)):
+                        ordered = True
+            ctx.check(ordered, "R13.10", ex, r, "of several worker errors the one of the first folder in archive order is raised",
+                      f"`{norm(r)[:80]}` raises whichever error a worker queued first: with two damaged folders testzip() names 'c.txt' in one run and 'a.txt' in the next (and the same archive "
+                      "read from a stream always answers 'a.txt'): the answer depends on the interleaving of the workers", construct="first queued error raised")
         # R13.4 channel kind -----------------------------------------------------------------
         winit = ctx.prog.func("py7zr", "Worker.__init__")
         prims = set()
